@@ -835,6 +835,18 @@ func (r *rewriter) chanTypeExpr(elem ast.Expr) ast.Expr {
 	return &ast.StarExpr{X: &ast.IndexExpr{X: mcSel("Chan"), Index: elem}}
 }
 
+// chanElem rewrites the channel types nested in an element type (chan chan T, chan []chan T, ...):
+// a node that replaces another one is not walked by astutil.Apply, so the element type of a
+// make(chan ...) that has just been replaced must be converted here.
+func (r *rewriter) chanElem(e ast.Expr) ast.Expr {
+	return astutil.Apply(e, nil, func(c *astutil.Cursor) bool {
+		if ct, ok := c.Node().(*ast.ChanType); ok {
+			c.Replace(r.chanTypeExpr(ct.Value))
+		}
+		return true
+	}).(ast.Expr)
+}
+
 func (r *rewriter) isBuiltin(id *ast.Ident, name string) bool {
 	if id.Name != name {
 		return false
@@ -890,7 +902,7 @@ func (r *rewriter) channelPass() {
 					r.needMC = true
 					name := r.enclosingFunc(n.Pos()) + "." + r.makeName(c)
 					c.Replace(&ast.CallExpr{
-						Fun:  &ast.IndexExpr{X: mcSel("NewChan"), Index: ct.Value},
+						Fun:  &ast.IndexExpr{X: mcSel("NewChan"), Index: r.chanElem(ct.Value)},
 						Args: []ast.Expr{size, strLit(name)},
 					})
 				}
